@@ -27,6 +27,21 @@ def generate(rnd, tier, index=0):
     scale = rnd.random() < 0.2
     if scale:
         lp[1]["scale"] = True
+    if scale and rnd.random() < 0.08:
+        # ONE large fit (more than a thousand rows per arm, drifting feature distribution): "computed on per-arm standardised
+        # features" means standardised with the statistics of ALL the arm's rows, however the call works through them
+        lp[1]["scale"] = True
+        if lp[0] == "LinGreedy":
+            lp[1]["epsilon"] = 0
+        cfg, spare = gen.gen_cfg(rnd, lp=lp, with_np=False, arms_lo=2, arms_hi=2)
+        d = rnd.randint(1, 2)
+        n = rnd.randint(2200, 2700)
+        rows = gen.gen_rows(rnd, cfg["arms"], n, d, "float", "real", True)
+        for i, r in enumerate(rows):
+            r[2] = [round(x + 6.0 * i / n, 6) for x in r[2]]
+        Q = gen.gen_Q(rnd, rnd.randint(1, 3), d, "float", [r[2] for r in rows[:50]])
+        return {"cfg": cfg, "regime": "float", "ops": [{"op": "fit", "rows": rows}, {"op": "expect", "Q": Q}],
+                "container": "list", "big": True}
     cfg, spare = gen.gen_cfg(rnd, lp=lp, with_np=False, arms_hi=5)
     d = rnd.choice([1, 1, 2, 3, 4])
     n_ops = rnd.randint(3, 12)
